@@ -39,37 +39,47 @@ def self_recursive(p):
     return False
 
 
-def inside(off, ext):
-    return ext[0] <= off <= ext[1]
-
-
 def check_positions(p, model, real):
     """Returns None if fine, else a description."""
     pos = real.get("positions") or []
     if not pos:
         return "no position reported"
-    if any(q["off"] < 0 or q["file"] != "(main)" for q in pos):
-        return "position outside the main file: %s" % pos
+    if any(q["off"] < 0 for q in pos):
+        return "position outside its file: %s" % pos
     ext = p["ext"]
+    nf = p["nodefile"]
+    srcs = {"(main)": p["src"]}
+    for m in p.get("mods", []):
+        srcs[m["name"]] = m["src"]
     if model["stmt"] == 0:
         return None
-    if not inside(pos[0]["off"], ext[model["stmt"] - 1]):
-        return "failing location %d:%d (offset %d) is outside the failing statement %r" % (
-            pos[0]["line"], pos[0]["col"], pos[0]["off"], p["src"][ext[model["stmt"] - 1][0]:ext[model["stmt"] - 1][1]])
+
+    def inside(q, node):
+        return q["file"] == nf[node - 1] and ext[node - 1][0] <= q["off"] <= ext[node - 1][1]
+
+    def text(node):
+        return srcs[nf[node - 1]][ext[node - 1][0]:ext[node - 1][1]]
+    if not inside(pos[0], model["stmt"]):
+        return "failing location %s:%d:%d is outside the failing statement %r (file %s)" % (
+            pos[0]["file"], pos[0]["line"], pos[0]["col"], text(model["stmt"]), nf[model["stmt"] - 1])
+    return check_calls(p, model, pos, inside, text)
+
+
+def check_calls(p, model, pos, inside, text):
     calls = model["calls"]
     rest = pos[1:]
     if not self_recursive(p):
         if len(rest) != len(calls):
             return "trace has %d call entries, %d calls are active" % (len(rest), len(calls))
         for q, c in zip(rest, calls):
-            if not inside(q["off"], ext[c - 1]):
-                return "trace entry %d:%d is outside the statement containing the call %r" % (
-                    q["line"], q["col"], p["src"][ext[c - 1][0]:ext[c - 1][1]])
+            if not inside(q, c):
+                return "trace entry %s:%d:%d is outside the statement containing the call %r" % (
+                    q["file"], q["line"], q["col"], text(c))
         return None
     # self recursion: a tail call replaces its frame, so the trace is a subsequence of the active calls
     j = 0
     for q in rest:
-        while j < len(calls) and not inside(q["off"], ext[calls[j] - 1]):
+        while j < len(calls) and not inside(q, calls[j]):
             j += 1
         if j >= len(calls):
             return "trace entry %d:%d matches no active call" % (q["line"], q["col"])
@@ -107,6 +117,11 @@ def run(ck):
         problems = [check_positions(p, m, r) for m in cands]
         if all(problems):
             ck.violation("pos:" + r["kind"], "%s\n%s\n%s" % (problems[0], r["msg"], p["src"]), {"program": p, "model": cands, "real": r})
+            continue
+        bad_sent = [k for k, v in (r.get("sentinels") or {}).items() if v["text"] != v["is"]]
+        if bad_sent:
+            ck.violation("sentinel:" + bad_sent[0], "error names %s but errors.Is does not recognise it (or vice versa): %s\n%s" % (
+                bad_sent[0], r["msg"], p["src"]), {"program": p, "real": r})
             continue
         t = twin[p["id"]]
         if len(ms) == 1 and t.get("msg") != r.get("msg"):
